@@ -6,7 +6,8 @@ EXTENDS Expr
 CONSTANTS MaxOps,      \* flat expressions with 1..MaxOps binary operators
           MaxParOps,   \* ... with one parenthesis pair, up to MaxParOps operators
           MaxUnOps,    \* ... with unary decorations, up to MaxUnOps operators
-          Tuples       \* set of operand tuples (sequences of words, length >= MaxOps + 1)
+          MaxLadder,   \* ... long flat expressions over one operator per level, 5..MaxLadder operators
+          Tuples       \* set of operand tuples (sequences of words, length >= 7)
 
 Num(v) == [t |-> "num", v |-> v]
 Op(o)  == [t |-> "op", o |-> o]
@@ -14,6 +15,9 @@ LP == [t |-> "lp"]
 RP == [t |-> "rp"]
 
 OpSeqs(k) == [1..k -> BinOps]
+\* one operator of each level: a string of six can keep six operators waiting (1 | 2 ^ 3 & 4 << 5 + 6 * 7)
+LadderOps == {"*", "+", "<<", "&", "^", "|"}
+LadderSeqs(k) == [1..k -> LadderOps]
 
 \* operand i decorated by d in {"", "-", "~", "-~", "~-"}
 Dec(d, v) == CASE d = ""   -> <<Num(v)>>
@@ -85,6 +89,7 @@ Bad(t) == LET z == WZero(W) IN {
 \* quantifiers in Init are enumerated lazily.
 IsCase(ts) ==
   \/ \E k \in 1..MaxOps : \E os \in OpSeqs(k), tup \in Tuples : ts = Build(os, tup, Plain(k), 0, 0, 1)
+  \/ \E k \in 5..MaxLadder : \E os \in LadderSeqs(k), tup \in Tuples : ts = Build(os, tup, Plain(k), 0, 0, 1)
   \/ \E k \in 1..MaxParOps : \E a \in 1..k, b \in 2..(k + 1) : \E os \in OpSeqs(k), tup \in Tuples :
         ts = Build(os, tup, Plain(k), a, b, 1)
   \/ \E k \in 0..MaxUnOps : \E os \in OpSeqs(k), tup \in Tuples, ds \in [1..(k + 1) -> Decs] :
